@@ -15,8 +15,8 @@ pub fn def() -> PropDef {
     PropDef {
         info: PropInfo {
             id: "C07",
-            rule: "call-graph programs: 1-6 functions laid out in a generated order after main (forward, backward and zero displacements (`callx +0`, whose callee is the code following the call), optional padding up to 33k instructions between them); every function folds (its r10 - caller's r10) and the incoming r1-r4 into the accumulator r0, loads distinctive values into r6-r9, spills r10, writes stack slots at generated offsets of its own frame, optionally calls a helper with a small id (so that pc+1+id is a later executed instruction), optionally calls another function (any function, itself included) while a counter argument is non-zero (nesting depth 0-10), optionally ends with such a call in tail position (call immediately followed by exit; half of them self-recursive), and after the return folds r6-r9, r1-r4, its reloaded stack slots and (r10 - spilled r10). Configurations: no calculator, or a stack-usage calculator driven by a generated table entry-pc -> u16 from {0,8,16,24,56,64,256,504,512,65535,random} with a distinctive default for non-entry pcs. Oracle: the reference model's C07 semantics vs the interpreter (value, or Err for depth > 8 / stack accesses outside the 512 bytes) and vs the x86-64 JIT whenever the model returns a value. Non-trivial = at least one executed local call whose callee writes the stack or r6-r9 (always true when a call executes); distinct by hash.",
-            assumptions: &["the JIT has no run-time error channel: the 'yields an error' clauses are checked on the interpreter only (DESIGN 6.6)", "stack addresses within 1 MiB of the eBPF stack belong to no other region of the VM"],
+            rule: "call-graph programs on each of the four VM kinds: 1-6 functions laid out in a generated order after main (forward, backward and zero displacements (`callx +0`, whose callee is the code following the call), optional padding up to 33k instructions between them); every function folds (its r10 - caller's r10) and the incoming r1-r4 into the accumulator r0, loads distinctive values into r6-r9, spills r10, writes stack slots at generated offsets of its own frame, optionally calls a helper with a small id (so that pc+1+id is a later executed instruction), optionally calls another function (any function, itself included) while a counter argument is non-zero (nesting depth 0-10), optionally ends with such a call in tail position (call immediately followed by exit; half of them self-recursive), and after the return folds r6-r9, r1-r4, its reloaded stack slots and (r10 - spilled r10). Configurations: no calculator, or a stack-usage calculator driven by a generated table entry-pc -> u16 from {0,8,16,24,56,64,256,504,512,65535,random} with a distinctive default for non-entry pcs. Oracle: the reference model's C07 semantics vs the interpreter (value, or Err for depth > 8 / stack accesses outside the 512 bytes) and vs the x86-64 JIT whenever the model returns a value. Non-trivial = at least one executed local call whose callee writes the stack or r6-r9 (always true when a call executes); distinct by hash.",
+            assumptions: &["the JIT has no run-time error channel: the 'yields an error' clauses are checked on the interpreter only (DESIGN 6.6)", "stack addresses within 1 MiB of the eBPF stack belong to no other region of the VM - except on the fixed-metadata VM, whose internal buffer is a heap neighbour of the stack: there, runs that leave the stack are not judged"],
         },
         run,
         replay,
@@ -42,6 +42,9 @@ pub struct CFunc {
 
 #[derive(Clone, Debug)]
 pub struct CProg {
+    /// VM kind selector: no-data, raw, metadata, fixed-metadata (the four VM structs duplicate
+    /// their entry paths; main overwrites r1-r5, so the program is the same on all of them)
+    vm: u8,
     funcs: Vec<CFunc>,
     rot: u8,
     counter: u8,
@@ -69,6 +72,7 @@ fn cfunc() -> impl Strategy<Value = CFunc> {
 
 pub fn cprog() -> impl Strategy<Value = CProg> {
     (
+        0u8..4,
         prop::collection::vec(cfunc(), 1..7),
         any::<u8>(),
         prop_oneof![2 => 0u8..4, 2 => 4u8..9, 1 => 9u8..11],
@@ -76,7 +80,7 @@ pub fn cprog() -> impl Strategy<Value = CProg> {
         prop_oneof![1 => Just(None), 3 => prop::sample::select(vec![0u16, 8, 40, 256, 1000, 65535]).prop_map(Some)],
         prop_oneof![12 => Just(None), 1 => (any::<u8>(), 32_700u16..33_200).prop_map(Some)],
     )
-        .prop_map(|(funcs, rot, counter, args, calc, big_pad)| CProg { funcs, rot, counter, args, calc, big_pad })
+        .prop_map(|(vm, funcs, rot, counter, args, calc, big_pad)| CProg { vm, funcs, rot, counter, args, calc, big_pad })
 }
 
 fn lddw(out: &mut Vec<Insn>, dst: u8, v: u64) {
@@ -235,7 +239,19 @@ pub fn lower(p: &CProg) -> ExecCase {
     for (at, target) in fixups {
         out[at].imm = (entry[target] as i64 - at as i64 - 1) as i32;
     }
-    let mut case = ExecCase::new(VmKind::NoData, encode_prog(&out));
+    let vm = match p.vm % 4 {
+        0 => VmKind::NoData,
+        1 => VmKind::Raw,
+        2 => VmKind::Mbuff { data_off: 8, end_off: 16 },
+        _ => VmKind::Fixed { data_off: 0x40, end_off: 0x50 },
+    };
+    let mut case = ExecCase::new(vm, encode_prog(&out));
+    if p.vm % 4 != 0 {
+        case.pkt = (0..16u8).collect();
+    }
+    if p.vm % 4 == 2 {
+        case.mbuff = vec![0; 32];
+    }
     // every small helper id that occurs is registered (three different helpers)
     for f in &p.funcs {
         if let Some(id) = f.helper {
@@ -253,7 +269,19 @@ pub fn lower(p: &CProg) -> ExecCase {
 }
 
 pub fn check(runner: &mut Runner, case: &mut ExecCase, st: Option<&mut Stats>) -> Verdict {
-    let m = model_run(case, 0, Quirks::default(), 200_000);
+    // the metadata VM's buffer holds the packet's real address: the model must know it
+    let m = model_run(case, runner.pkt_addr(case), Quirks::default(), 200_000);
+    // the fixed-metadata VM owns a heap buffer that is a legitimate region for the program; an
+    // access below the stack may land in it (the allocator often places the two side by side), so
+    // "outside the 512 bytes => error" cannot be demanded there
+    if matches!(case.vm, VmKind::Fixed { .. }) && matches!(m.out, MOut::Err(MErr::OutOfBounds)) {
+        if let Some(st) = st {
+            st.eval();
+            *st.discarded.entry("fixed-vm:stack-overrun-may-hit-the-internal-buffer".into()).or_insert(0) += 1;
+            return Verdict::Pass;
+        }
+        return Verdict::Discard("fixed-vm-stack-overrun");
+    }
     if let Some(st) = st {
         st.eval();
         match &m.out {
@@ -266,6 +294,7 @@ pub fn check(runner: &mut Runner, case: &mut ExecCase, st: Option<&mut Stats>) -
             }
         }
         st.class(&format!("max-depth:{}", m.trace.max_depth));
+        st.class(&format!("vm:{}", case.vm.name()));
         st.class(if case.calc.is_some() { "calculator" } else { "no-calculator" });
         if m.trace.helper_calls > 0 {
             st.class("helper-call-in-function");
